@@ -100,6 +100,18 @@ def check_concrete(model, rep, m):
                         tuple_bad = tuple_bad or f'the elements are stored as a {st_el[-1][3].kind}, specified an immutable tuple'
                     want = any(c == 'WT' for c in combo)
                     val = st_fl[-1][3] if st_fl else None
+                    if val is None:
+                        # the flag is not one stored boolean: read it through the public getter on the assembled object
+                        try:
+                            fr = {'module': m.module, 'cls': 'Powertrain', 'fn': m.node, 'depth': 0}
+                            s_ = done[0].state.copy()
+                            s_.env = {'self': Ov('self', 'Powertrain', True)}
+                            sx.eval_comprehensions = True
+                            rs = [r for r in sx.eval_x(ast.parse('self.self_locking', mode='eval').body, s_, fr) if not hasattr(r, 'kind')]
+                            if len(rs) == 1:
+                                val = rs[0][1]
+                        except CannotDecide:
+                            pass
                     if not (isinstance(val, Bv) and val.b is want):
                         flag_bad = flag_bad or (f'for the chain {tag} the frozen self-locking flag is `{sx.show(val)[:40] if val is not None else None}`, '
                                                 f'specified {want}')
@@ -397,6 +409,16 @@ def check_frozen(model, rep):
                 and body[0].value.attr.startswith('__') and not body[0].value.attr.endswith('__')
             if trivial:
                 field = body[0].value.attr
+            elif len(body) == 1 and isinstance(body[0], ast.Return) and body[0].value is not None:
+                # a pure function of private fields of the powertrain (e.g. `len(self.__locking_gears) > 0`): frozen when those fields are -
+                # it may not look INTO the elements (their flags can change after assembly)
+                attrs = [a for a in ast.walk(body[0].value) if isinstance(a, ast.Attribute)]
+                calls = [c for c in ast.walk(body[0].value) if isinstance(c, ast.Call)]
+                own = [a for a in attrs if isinstance(a.value, ast.Name) and a.value.id == 'self' and a.attr.startswith('__') and not a.attr.endswith('__')]
+                if attrs and len(own) == len(attrs) and all(isinstance(c.func, ast.Name) and c.func.id in ('len', 'bool', 'any', 'all', 'tuple') for c in calls) \
+                        and not any(isinstance(x, (ast.GeneratorExp, ast.ListComp, ast.Lambda)) for x in ast.walk(body[0].value)):
+                    trivial = True
+                    field = own[0].attr
             rep.decide(trivial, 'C20.frozen', f'Powertrain.{prop}[getter]',
                        f'the getter computes `{ast.unparse(body[0])[:80] if body else None}` instead of returning the value frozen at '
                        f'assembly', loc=g.loc)
